@@ -17,11 +17,42 @@ def M(eng, name):
     return eng.prog.func(f"{CLS}.{name}")
 
 
+def stmts_text(fi):
+    """[(stmt node, text)] for all simple statements and compound headers of a function."""
+    out = []
+    for n in own_nodes(fi.node):
+        if isinstance(n, (ast.Assign, ast.AugAssign, ast.Expr, ast.Return)):
+            out.append((n, src(n)))
+        elif isinstance(n, ast.For):
+            out.append((n, f"for {src(n.target)} in {src(n.iter)}"))
+        elif isinstance(n, ast.If):
+            out.append((n, f"if {src(n.test)}"))
+    return out
+
+
+def locate(fi, patterns, env=None):
+    """Bind metavariables so that every pattern matches some statement; returns (env, {pattern: node}) or (None, {})."""
+    from ..pat import solve, unify
+
+    st = stmts_text(fi)
+    e = solve(patterns, [t for _, t in st], env or {})
+    if e is None:
+        return None, {}
+    nodes = {}
+    for p in patterns:
+        for n, t in st:
+            if unify(p, t, e) is not None:
+                nodes[p] = n
+                break
+    return e, nodes
+
+
 def sag_nodes(eng, res, rule="R-SAG-NODES"):
+    from ..pat import unify
+
     gen = M(eng, "generate")
     res.unit(gen)
     flow = eng.flow(gen)
-    # dispatch of both element kinds over the molecule's elements
     loops = [l for l in own_nodes(gen.node) if isinstance(l, ast.For)]
     ok = False
     why = "no loop over the elements"
@@ -32,87 +63,114 @@ def sag_nodes(eng, res, rule="R-SAG-NODES"):
             for st in ast.walk(l):
                 if isinstance(st, ast.If) and src(st.test).startswith(f"isinstance({v},"):
                     k = src(st.test).split(",")[1].strip(" )")
-                    cs = [callee_name(c) for c in ast.walk(st) if isinstance(c, ast.Call) and isinstance(c.func, ast.Attribute) and src(c.func.value) == "self"]
+                    cs = [(callee_name(c), [src(a) for a in c.args]) for c in ast.walk(st) if isinstance(c, ast.Call) and isinstance(c.func, ast.Attribute) and src(c.func.value) == "self"]
                     kinds[k] = cs
-            ok = kinds.get("SmilesToken") == ["_add_token_element"] and kinds.get("Stochastic") == ["_add_stochastic_element"]
+            ok = kinds.get("SmilesToken") == [("_add_token_element", [v])] and kinds.get("Stochastic") == [("_add_stochastic_element", [v])]
             why = f"dispatch {kinds}"
     res.ob(rule, gen, "element-dispatch", "plain tokens and stochastic objects are both added, in element order", gen.node, ok, why)
-    # nodes of a token: one per atom of the token's own fragment
     gt = M(eng, "_get_token_nodes")
     res.unit(gt)
-    fl = eng.flow(gt)
     tok = gt.params[1]
-    mk = calls(gt, "MolFromSmiles")
-    ok = len(mk) == 1 and src(fl.expand_ssa(mk[0].args[0], fl.cfg.node_of(mk[0]))) == f"{tok}.generate_smiles_fragment()"
-    res.ob(rule, gt, "fragment-of-token", "a token's atoms are RDKit's parse of the token's own fragment SMILES", gt.node, ok)
-    loops = [l for l in own_nodes(gt.node) if isinstance(l, ast.For) and "GetNumAtoms" in src(l.iter)]
-    ok = len(loops) == 1 and src(loops[0].iter).startswith("range(") and any(
-        isinstance(n, ast.AugAssign) and src(n.target) == "nodes" or (isinstance(n, ast.Call) and callee_name(n) == "append" and src(n.func.value) == "nodes") for n in ast.walk(loops[0]))
-    res.ob(rule, gt, "node-per-atom", "exactly one node record per atom index of the fragment", gt.node, ok)
-    # static bonds: every bond of the atom, keyed by the other atom
-    sb = [n for n in own_nodes(gt.node) if isinstance(n, ast.Assign) and isinstance(n.targets[0], ast.Subscript) and src(n.targets[0].value) == "static_bonds"]
-    ok = len(sb) == 1 and any(isinstance(l, ast.For) and src(l.iter).endswith(".GetBonds()") for l in fl.cfg.enclosing_loops(sb[0])) and src(sb[0].value) == "bond"
-    res.ob(rule, gt, "static-bonds-collected", "every bond of every atom is recorded with the atom at its other end", sb[0] if sb else gt.node, ok)
-    # attributes
+    env, nd = locate(gt, [f"$SMI = {tok}.generate_smiles_fragment()", "$MOL = Chem.MolFromSmiles($SMI)", "for $I in range($MOL.GetNumAtoms())", "$ATOM = $MOL.GetAtomWithIdx($I)",
+                          "for $B in $ATOM.GetBonds()", "$SB[$O] = $B", "$NP = {'atom': $ATOM, 'static_bonds': $SB}", "$NODES += [$NP]", "return $NODES"])
+    alt = None
+    if env is None:
+        alt, nd = locate(gt, [f"$MOL = Chem.MolFromSmiles({tok}.generate_smiles_fragment())", "for $I in range($MOL.GetNumAtoms())", "$ATOM = $MOL.GetAtomWithIdx($I)",
+                              "for $B in $ATOM.GetBonds()", "$SB[$O] = $B", "$NP = {'atom': $ATOM, 'static_bonds': $SB}", "$NODES.append($NP)", "return $NODES"])
+    e = env or alt
+    res.ob(rule, gt, "fragment-of-token", "a token's atoms are RDKit's parse of the token's own fragment SMILES", gt.node, e is not None, "statement pattern of the fragment parse not found")
+    ok = e is not None
+    if ok:
+        fl = eng.flow(gt)
+        loop_i = [n for p, n in nd.items() if p.startswith("for $I")][0]
+        add = [n for p, n in nd.items() if p.startswith("$NODES")][0]
+        rec = [n for p, n in nd.items() if p.startswith("$NP =")][0]
+        ok = loop_i in fl.cfg.enclosing_loops(add) and len(fl.cfg.enclosing_loops(add)) == 1 and not site_guards(fl.cfg, add, loop_i) and loop_i in fl.cfg.enclosing_loops(rec)
+    res.ob(rule, gt, "node-per-atom", "exactly one node record per atom index of the fragment (unconditionally)", gt.node, ok)
+    ok = e is not None
+    if ok:
+        fl = eng.flow(gt)
+        sb = [n for p, n in nd.items() if p.startswith("$SB[")][0]
+        lb = [n for p, n in nd.items() if p.startswith("for $B")][0]
+        ok = lb in fl.cfg.enclosing_loops(sb) and not site_guards(fl.cfg, sb, lb)
+        # the key is the atom at the other end
+        defs = [d for d in fl.defs if d.name == e["O"] and d.kind == "assign"]
+        vals = sorted(src(d.value) for d in defs)
+        ok = ok and vals == sorted([f"{e['B']}.GetEndAtomIdx()", f"{e['B']}.GetBeginAtomIdx()"])
+    res.ob(rule, gt, "static-bonds-collected", "every bond of every atom is recorded under the atom at its other end", gt.node, ok)
     an = M(eng, "_add_nodes_to_graph")
     res.unit(an)
+    prm = an.params[1]
+    e2, nd2 = locate(an, [f"for $N in {prm}", "$A = $N['atom']"])
     props = {}
     for n in own_nodes(an.node):
         if isinstance(n, ast.Dict):
             for k, v in zip(n.keys, n.values):
                 if isinstance(k, ast.Constant):
                     props[k.value] = src(v)
-    want = {"atomic_num": "atom.GetAtomicNum()", "formal_charge": "atom.GetFormalCharge()", "aromatic": "atom.GetIsAromatic()"}
-    ok = all(props.get(k) == v for k, v in want.items())
+    A = e2["A"] if e2 else "?"
+    want = {"atomic_num": f"{A}.GetAtomicNum()", "formal_charge": f"{A}.GetFormalCharge()", "aromatic": f"{A}.GetIsAromatic()"}
+    ok = e2 is not None and all(props.get(k) == v for k, v in want.items())
     res.ob(rule, an, "atom-attributes", "atomic_num, formal_charge and aromatic come from the corresponding getters of that atom", an.node, ok, f"{ {k: props.get(k) for k in want} }")
     adds = calls(an, "add_node")
-    ok = len(adds) == 1 and src(adds[0].args[0]) == "self.node_counter + atom.GetIdx()"
+    ok = e2 is not None and len(adds) == 1 and src(adds[0].args[0]) in (f"self.node_counter + {A}.GetIdx()", f"{A}.GetIdx() + self.node_counter")
     fl2 = eng.flow(an)
     if ok:
-        defs = fl2.reaching("atom", fl2.cfg.node_of(adds[0]))
-        ok = len(defs) == 1 and src(defs[0].value) == "node['atom']"
-    res.ob(rule, an, "node-id", "node id = running counter + atom index, for the atom whose attributes are stored", adds[0] if adds else an.node, ok)
+        defs = fl2.reaching(A, fl2.cfg.node_of(adds[0]))
+        ok = len(defs) == 1 and src(defs[0].value) == f"{e2['N']}['atom']" and not site_guards(fl2.cfg, adds[0])
+    res.ob(rule, an, "node-id", "node id = running counter + atom index, for the atom whose attributes are stored (one node per record, unconditionally)", adds[0] if adds else an.node, ok)
 
 
 def sag_offsets(eng, res, rule="R-SAG-OFFSETS"):
+    from ..pat import unify
+
     te = M(eng, "_add_token_element")
     res.unit(te)
     fl = eng.flow(te)
     cfg = fl.cfg
-    app = [c for c in calls(te, "append") if src(c.func.value) == "self.node_offset_list"]
-    inc = [n for n in own_nodes(te.node) if isinstance(n, ast.AugAssign) and src(n.target) == "self.node_counter"]
-    addn = calls(te, "_add_nodes_to_graph")
-    ok = len(app) == 1 and len(inc) == 1 and len(addn) == 1 and src(app[0].args[0]) == "[self.node_counter]" and src(inc[0].value) == f"len({src(addn[0].args[0])})"
+    e, nd = locate(te, ["self._add_nodes_to_graph($NODES)", "self.node_offset_list.append([self.node_counter])", "self.node_counter += len($NODES)"])
+    ok = e is not None
     if ok:
-        ok = cfg.node_of(inc[0]) in cfg.reachable([cfg.node_of(app[0])]) and cfg.node_of(app[0]) not in cfg.reachable([cfg.node_of(inc[0])]) \
-            and cfg.node_of(inc[0]) in cfg.reachable([cfg.node_of(addn[0])])
+        a, b, c = (cfg.node_of(nd[p]) for p in ["self._add_nodes_to_graph($NODES)", "self.node_offset_list.append([self.node_counter])", "self.node_counter += len($NODES)"])
+        ok = c in cfg.reachable([b]) and b not in cfg.reachable([c]) and c in cfg.reachable([a]) and a not in cfg.reachable([c])
+        d = [x for x in fl.defs if x.name == e["NODES"] and x.kind == "assign"]
+        ok = ok and len(d) == 1 and unify(f"self._get_token_nodes({te.params[1]}, $MW)", src(d[0].value)) is not None
     res.ob(rule, te, "token-offset", "a plain token's offset is the counter before its atoms are added; the counter then advances by the number of its atoms", te.node, ok)
     se = M(eng, "_add_stochastic_element")
     res.unit(se)
     fl = eng.flow(se)
     cfg = fl.cfg
-    init = [d for d in fl.defs if d.name == "nested_offset" and d.kind == "assign"]
-    ok0 = len(init) == 1 and src(init[0].value) == "[self.node_counter]"
+    S = se.params[1]
+    e, nd = locate(se, ["$NO = [self.node_counter]", "self.node_offset_list.append($NO)", f"self._add_stochastic_bonds({S}, $NO)"])
+    ok0 = e is not None
     loops = [l for l in own_nodes(se.node) if isinstance(l, ast.For)]
-    order = [src(l.iter).split(".")[-1] for l in loops]
-    okl = order == ["repeat_tokens", "end_tokens"]
-    per = True
-    for l in loops:
-        body = " ; ".join(src(s) for s in l.body)
-        t = l.target.id if isinstance(l.target, ast.Name) else "?"
-        per = per and f"self._get_token_nodes({t}," in body and "self._add_nodes_to_graph(nodes)" in body and "self.node_counter += len(nodes)" in body \
-            and "nested_offset.append(nested_offset[-1] + len(nodes))" in body
-        # nodes added before the counter advances
-        i_add = next((i for i, s in enumerate(l.body) if "_add_nodes_to_graph" in src(s)), -1)
-        i_inc = next((i for i, s in enumerate(l.body) if "self.node_counter +=" in src(s)), -1)
-        per = per and 0 <= i_add < i_inc
-    app = [c for c in calls(se, "append") if src(c.func.value) == "self.node_offset_list"]
-    oka = len(app) == 1 and src(app[0].args[0]) == "nested_offset" and not cfg.enclosing_loops(app[0])
+    order = [src(l.iter) for l in loops]
+    okl = order == [f"{S}.repeat_tokens", f"{S}.end_tokens"]
+    per = ok0
+    if ok0:
+        NO = e["NO"]
+        for l in loops:
+            t = l.target.id if isinstance(l.target, ast.Name) else "?"
+            texts = [src(s) for s in l.body]
+            from ..pat import solve
+
+            ee = solve([f"$NODES = self._get_token_nodes({t}, $MW)", "self._add_nodes_to_graph($NODES)", "self.node_counter += len($NODES)", f"{NO}.append({NO}[-1] + len($NODES))"], texts)
+            per = per and ee is not None
+            if ee is not None:
+                i_add = texts.index(f"self._add_nodes_to_graph({ee['NODES']})")
+                i_inc = texts.index(f"self.node_counter += len({ee['NODES']})")
+                per = per and i_add < i_inc
+        app = nd["self.node_offset_list.append($NO)"]
+        bonds = nd[f"self._add_stochastic_bonds({S}, $NO)"]
+        oka = not cfg.enclosing_loops(app)
+        okb = bool(loops) and cfg.must_pass(cfg.node_of(loops[-1]), cfg.node_of(bonds)) and not cfg.enclosing_loops(bonds)
+        init_n = nd["$NO = [self.node_counter]"]
+        ok0 = not cfg.enclosing_loops(init_n) and (not loops or cfg.must_pass(cfg.node_of(init_n), cfg.node_of(loops[0])))
+    else:
+        oka = okb = False
     res.ob(rule, se, "object-offsets", "a stochastic object records one offset per token (repeat tokens first, then end tokens): counter and offset advance by the same number of atoms in the same iteration",
            se.node, ok0 and okl and per and oka, f"init {ok0}, loop order {order}, lockstep {per}, appended once {oka}")
-    bonds = calls(se, "_add_stochastic_bonds")
-    ok = len(bonds) == 1 and [src(a) for a in bonds[0].args] == [se.params[1], "nested_offset"] and cfg.must_pass(cfg.node_of(loops[-1]), cfg.node_of(bonds[0])) if loops else False
-    res.ob(rule, se, "bonds-after-nodes", "intra-object links are built after all its atoms exist, with this object's offsets", bonds[0] if bonds else se.node, ok)
+    res.ob(rule, se, "bonds-after-nodes", "intra-object links are built after all its atoms exist, with this object's offsets", se.node, okb)
     gen = M(eng, "generate")
     body = " ; ".join(src(s) for s in gen.node.body)
     ok = "self.node_offset_list = [[0]]" in body and "self.node_offset_list = self.node_offset_list[1:]" in body and "self.node_counter = 0" in body
@@ -123,14 +181,22 @@ def sag_offsets(eng, res, rule="R-SAG-OFFSETS"):
     res.ob(rule, gen, "offset-list-per-element", "one offset list per element in element order (the helper first entry is dropped before inter-element links are built)", gen.node, ok)
     fb = eng.prog.func("stochastic_atom_graph._find_bd_token")
     res.unit(fb)
-    rets = [src(r.value) for r in own_nodes(fb.node) if isinstance(r, ast.Return) and r.value is not None]
-    ok = rets == ["i", "i + len(element.repeat_tokens)", "0"]
-    loops = [src(l.iter) for l in own_nodes(fb.node) if isinstance(l, ast.For)]
-    ok = ok and loops == ["enumerate(element.repeat_tokens)", "enumerate(element.end_tokens)"]
-    res.ob(rule, fb, "token-index", "a descriptor's token index counts repeat tokens first, then end tokens (+ number of repeat tokens); 0 for a plain token", fb.node, ok, f"returns {rets} over {loops}")
+    E, B = fb.params[0], fb.params[1]
+    e, nd = locate(fb, [f"for ($I, $T) in enumerate({E}.repeat_tokens)", "return $I", f"for ($J, $U) in enumerate({E}.end_tokens)", f"return $J + len({E}.repeat_tokens)", "return 0"])
+    ok = e is not None
+    if ok:
+        flb = eng.flow(fb)
+        r1 = nd["return $I"]
+        r2 = nd[f"return $J + len({E}.repeat_tokens)"]
+        g1 = [t for t, p in site_guards(flb.cfg, r1) if p]
+        g2 = [t for t, p in site_guards(flb.cfg, r2) if p]
+        ok = g1 == [f"{B} in {e['T']}.bond_descriptors"] and g2 == [f"{B} in {e['U']}.bond_descriptors"]
+    res.ob(rule, fb, "token-index", "a descriptor's token index counts repeat tokens first, then end tokens (+ number of repeat tokens); 0 for a plain token", fb.node, ok)
 
 
 def sag_static(eng, res, rule="R-SAG-STATIC"):
+    from ..pat import unify
+
     an = M(eng, "_add_nodes_to_graph")
     ae = calls(an, "add_edge")
     ok = len(ae) == 1
@@ -141,10 +207,19 @@ def sag_static(eng, res, rule="R-SAG-STATIC"):
         a = src(fl.expand_names(c.args[0], fl.cfg.node_of(c)))
         b = src(fl.expand_names(c.args[1], fl.cfg.node_of(c)))
         kws = {k.arg: src(k.value) for k in c.keywords}
-        loops = [src(l.iter) for l in fl.cfg.enclosing_loops(c)]
-        ok = a == "node['atom'].GetIdx() + self.node_counter" and b == "other_idx + self.node_counter" \
-            and kws.get("bond_type") == "int(static_bonds[other_idx].GetBondType())" and kws.get("static_weight") == "1" \
-            and all(kws.get(k) == "0" for k in WEIGHT_KEYS if k != "static_weight") and "static_bonds" in loops
+        loops = [l for l in fl.cfg.enclosing_loops(c) if isinstance(l, ast.For)]
+        ea = unify("$N['atom'].GetIdx() + self.node_counter", a)
+        eb = unify("$O + self.node_counter", b)
+        ok = ea is not None and eb is not None and len(loops) == 2
+        if ok:
+            O = eb["O"]
+            inner, outer = loops[0], loops[1]
+            sbn = src(inner.iter)
+            d = [x for x in fl.defs if x.name == sbn and x.kind == "assign"] if inner.iter.__class__ is ast.Name else []
+            ok = isinstance(inner.target, ast.Name) and inner.target.id == O and len(d) == 1 and src(d[0].value) == f"{ea['N']}['static_bonds']" \
+                and isinstance(outer.target, ast.Name) and outer.target.id == ea["N"] and src(outer.iter) == an.params[1] \
+                and kws.get("bond_type") == f"int({sbn}[{O}].GetBondType())" and kws.get("static_weight") == "1" \
+                and all(kws.get(k) == "0" for k in WEIGHT_KEYS if k != "static_weight") and not site_guards(fl.cfg, c)
         why = f"edge {a} -> {b}, {kws}"
     res.ob(rule, an, "static-edge", "one static edge per bond of every atom: both ends shifted by the same counter, order = that bond's type, only the static weight set",
            ae[0] if ae else an.node, ok, why)
@@ -175,8 +250,26 @@ class Link:
         return None
 
 
+TB_PATTERNS = ["for ($LI, $EL) in enumerate(self._big_smi_mol.elements[:-1])", "$RI = $LI + 1", "$ER = self._big_smi_mol.elements[$RI]",
+               "for $BL in $EL.bond_descriptors", "for $BR in $ER.bond_descriptors", "$IL = _find_bd_token($EL, $BL)", "$IR = _find_bd_token($ER, $BR)"]
+
+
+def tb_env(eng):
+    return locate(M(eng, "_add_transition_bonds"), TB_PATTERNS)
+
+
+def sb_env(eng):
+    f = M(eng, "_add_stochastic_bonds")
+    E = f.params[1]
+    return locate(f, [f"for $G in {E}.bond_descriptors", f"$GI = _find_bd_token({E}, $G)"])
+
+
 def sag_links(eng, res):
     n = 0
+    TB, _ = tb_env(eng)
+    SB, _ = sb_env(eng)
+    TB = TB or {}
+    SB = SB or {}
     for name in ("_add_transition_bonds", "_add_stochastic_bonds"):
         fi = M(eng, name)
         res.unit(fi)
@@ -223,47 +316,37 @@ def sag_links(eng, res):
             def off_ok(term, d):
                 t = src(term)
                 if name == "_add_stochastic_bonds":
-                    return f"nested_offset[_find_bd_token(element, {d})]" in t
-                if d == "bd_lhs":
-                    return f"self.node_offset_list[element_lhs_i][_find_bd_token(element_lhs, bd_lhs)]" in t
-                return "self.node_offset_list[element_lhs_i + 1][_find_bd_token(self._big_smi_mol.elements[element_lhs_i + 1], bd_rhs)]" in t
+                    return f"{fi.params[2]}[_find_bd_token({fi.params[1]}, {d})]" in t
+                if not TB:
+                    return False
+                if d == TB["BL"]:
+                    return f"self.node_offset_list[{TB['LI']}][_find_bd_token({TB['EL']}, {TB['BL']})]" in t
+                return f"self.node_offset_list[{TB['LI']} + 1][_find_bd_token(self._big_smi_mol.elements[{TB['LI']} + 1], {TB['BR']})]" in t
 
             ok = da is not None and db is not None and off_ok(L.a, da) and off_ok(L.b, db)
             res.ob("R-SAG-OFFSETS", fi, role + ":endpoint-offsets", "each endpoint = the descriptor's atom index + the offset of that descriptor's own token in its own element", c, ok,
                    f"{src(L.a)[:110]} -> {src(L.b)[:110]}")
             # --- source is a repeat unit (no edge leaves an end group)
             if name == "_add_stochastic_bonds":
-                src_idx = f"_find_bd_token(element, {da})"
-                can = Canon()
-                ok = False
-                for t in L.neg:
-                    try:
-                        f = can.formula(parse_expr(t.replace("graph_bd_token_idx", src_idx)))
-                        wnt = can.formula(parse_expr(f"{src_idx} >= len(element.repeat_tokens)"))
-                        if equivalent(f, wnt)[0]:
-                            ok = True
-                    except (AnalysisError, SyntaxError):
-                        pass
-                # `continue` form: the test is a guard with the F edge
-                if not ok:
-                    ok = _continue_guard(fi, flow, c, "graph_bd_token_idx >= len(element.repeat_tokens)", {"graph_bd_token_idx": src_idx})
+                EP = fi.params[1]
+                ok = bool(SB) and da == SB.get("G") and _continue_guard(fi, flow, c, f"{SB['GI']} >= len({EP}.repeat_tokens)", {})
                 res.ob("R-SAG-ENDGROUP", fi, role + ":source-is-repeat-unit", "the source descriptor's token is a repeat unit (its token index is below the number of repeat tokens)", c, ok,
                        "no dominating test `token index >= len(repeat_tokens) → skip` on the source descriptor")
             else:
-                ok = _continue_guard(fi, flow, c, "isinstance(element_lhs, Stochastic) and bd_lhs_idx >= len(element_lhs.repeat_tokens)", {})
+                ok = bool(TB) and _continue_guard(fi, flow, c, f"isinstance({TB['EL']}, Stochastic) and {TB['IL']} >= len({TB['EL']}.repeat_tokens)", {})
                 res.ob("R-SAG-ENDGROUP", fi, role + ":source-is-repeat-unit", "a transition edge never leaves an end group: for a stochastic left element the source token index is below the number of repeat TOKENS",
                        c, ok, "no dominating `isinstance(lhs, Stochastic) and idx >= len(lhs.repeat_tokens) → skip`")
-                defs = flow.reaching("bd_lhs_idx", cfg.node_of(c))
-                ok = len(defs) == 1 and src(defs[0].value) == "_find_bd_token(element_lhs, bd_lhs)"
+                defs = flow.reaching(TB["IL"], cfg.node_of(c)) if TB else []
+                ok = len(defs) == 1 and da == TB.get("BL")
                 res.ob("R-SAG-ENDGROUP", fi, role + ":source-index", "the tested index is the token index of the source descriptor", c, ok)
             # --- target side
             if name == "_add_stochastic_bonds" and not listed:
-                tgt_idx = f"_find_bd_token(element, {db})"
+                tgt_idx = f"_find_bd_token({fi.params[1]}, {db})"
                 if kind == "stochastic_weight":
-                    ok = f"{tgt_idx} < len(element.repeat_tokens)" in L.pos
+                    ok = f"{tgt_idx} < len({fi.params[1]}.repeat_tokens)" in L.pos
                     res.ob("R-SAG-COMPAT", fi, role + ":target-kind", "a stochastic (growth) edge ends in a repeat unit", c, ok, f"{sorted(L.pos)[:4]}")
                 elif kind == "termination_weight":
-                    ok = f"{tgt_idx} < len(element.repeat_tokens)" in L.neg
+                    ok = f"{tgt_idx} < len({fi.params[1]}.repeat_tokens)" in L.neg
                     res.ob("R-SAG-COMPAT", fi, role + ":target-kind", "a termination edge ends in an end group", c, ok, f"{sorted(L.neg)[:4]}")
     return n
 
@@ -287,49 +370,54 @@ def _continue_guard(fi, flow, call, expected_src, subst) -> bool:
 
 
 def sag_misc(eng, res):
-    # list alignment: entry i of a transition list addresses descriptor i of the whole object
+    from ..pat import unify
+
     fi = M(eng, "_add_stochastic_bonds")
     flow = eng.flow(fi)
     cfg = flow.cfg
+    EP = fi.params[1]
+    SB, _ = sb_env(eng)
     ok = False
     why = "no enumerate over the transition list"
     for l in own_nodes(fi.node):
-        if isinstance(l, ast.For) and isinstance(l.iter, ast.Call) and callee_name(l.iter) == "enumerate":
+        if isinstance(l, ast.For) and isinstance(l.iter, ast.Call) and callee_name(l.iter) == "enumerate" and isinstance(l.target, ast.Tuple):
             pv = src(flow.expand_names(l.iter.args[0], cfg._foriter[id(l)]))
             if pv.endswith(".transitions"):
                 idx = l.target.elts[0].id
                 first = l.body[0]
-                ok = isinstance(first, ast.Assign) and src(first.value) == f"element.bond_descriptors[{idx}]" and pv == "graph_bd.transitions"
+                ok = bool(SB) and isinstance(first, ast.Assign) and src(first.value) == f"{EP}.bond_descriptors[{idx}]" and pv == f"{SB['G']}.transitions"
                 why = f"list {pv}; first statement {src(first)[:60]}"
     res.ob("R-SAG-COMPAT", fi, "list-alignment", "entry i of a descriptor's transition list addresses descriptor i of the object's full descriptor list (repeat and end groups)", fi.node, ok, why)
-    # every descriptor of the object is considered as source / every pair as candidate
-    outer = [l for l in own_nodes(fi.node) if isinstance(l, ast.For) and src(l.iter) == "element.bond_descriptors" and not cfg.enclosing_loops(l)]
-    inner = [l for l in own_nodes(fi.node) if isinstance(l, ast.For) and src(l.iter) == "element.bond_descriptors" and cfg.enclosing_loops(l)]
+    outer = [l for l in own_nodes(fi.node) if isinstance(l, ast.For) and src(l.iter) == f"{EP}.bond_descriptors" and not cfg.enclosing_loops(l)]
+    inner = [l for l in own_nodes(fi.node) if isinstance(l, ast.For) and src(l.iter) == f"{EP}.bond_descriptors" and cfg.enclosing_loops(l)]
     res.ob("R-SAG-COMPAT", fi, "all-pairs", "every descriptor of the object is a candidate source and every descriptor a candidate target (no link can be missing for lack of being considered)",
            fi.node, len(outer) == 1 and len(inner) >= 1)
     ft = M(eng, "_add_transition_bonds")
     fl = eng.flow(ft)
-    loops = [src(l.iter) for l in own_nodes(ft.node) if isinstance(l, ast.For)]
-    ok = loops[:3] == ["enumerate(self._big_smi_mol.elements[:-1])", "element_lhs.bond_descriptors", "element_rhs.bond_descriptors"]
-    d = [x for x in fl.defs if x.name == "element_rhs_i" and x.kind == "assign"]
-    ok = ok and len(d) == 1 and src(d[0].value) == "element_lhs_i + 1"
-    d = [x for x in fl.defs if x.name == "element_rhs" and x.kind == "assign"]
-    ok = ok and len(d) == 1 and src(d[0].value) == "self._big_smi_mol.elements[element_rhs_i]"
-    res.ob("R-SAG-COMPAT", ft, "consecutive-pairs", "transition edges are considered for every descriptor pair of every two consecutive elements", ft.node, ok, f"loops {loops[:3]}")
-    # terminals respected: both inverted-terminal tests present
+    TB, nd = tb_env(eng)
+    ok = TB is not None
+    if ok:
+        l1 = nd["for ($LI, $EL) in enumerate(self._big_smi_mol.elements[:-1])"]
+        l2 = nd["for $BL in $EL.bond_descriptors"]
+        l3 = nd["for $BR in $ER.bond_descriptors"]
+        ok = fl.cfg.enclosing_loops(l3)[:2] == [l2, l1] and not site_guards(fl.cfg, l3)
+    res.ob("R-SAG-COMPAT", ft, "consecutive-pairs", "transition edges are considered for every descriptor pair of every two consecutive elements", ft.node, ok)
+    if not TB:
+        return
     body = src(ft.node)
-    ok = "_create_compatible_bond_text(element_rhs.left_terminal)" in body and "_create_compatible_bond_text(element_lhs.right_terminal)" in body \
-        and "invert_terminal.is_compatible(bd_rhs)" in body and "invert_terminal.is_compatible(bd_lhs)" in body
-    res.ob("R-SAG-COMPAT", ft, "terminals-respected", "transition edges respect both terminal descriptors (target vs the next element's left terminal, source vs this element's right terminal)", ft.node, ok)
+    e2, _ = locate(ft, [f"$T1 = _create_compatible_bond_text({TB['ER']}.left_terminal)", f"$T2 = _create_compatible_bond_text({TB['EL']}.right_terminal)",
+                        f"$OK = $INV.is_compatible({TB['BR']})", f"$OK = $INV.is_compatible({TB['BL']})"])
+    res.ob("R-SAG-COMPAT", ft, "terminals-respected", "transition edges respect both terminal descriptors (target vs the next element's left terminal, source vs this element's right terminal)", ft.node, e2 is not None)
     ae = calls(ft, "add_edge")
-    if ae:
+    if ae and e2:
         L = Link(ft, fl, ae[0])
         rp = {t for t, p in L.raw_guards if p}
-        ok = "terminal_ok" in rp and "exclude_transition_into_terminal" in rp
-        res.ob("R-SAG-COMPAT", ft, "terminal-tests-dominate", "the edge is added only when the terminal tests succeeded and the target is not an end group", ae[0], ok, f"{sorted(L.pos)}")
-        d = [x for x in fl.defs if x.name == "exclude_transition_into_terminal" and x.kind == "assign" and not isinstance(x.value, ast.Constant)]
-        ok = len(d) == 1 and src(d[0].value) == "bd_rhs_idx < len(element_rhs.repeat_tokens)"
+        d = [x for x in fl.defs if x.kind == "assign" and not isinstance(x.value, ast.Constant) and src(x.value) == f"{TB['IR']} < len({TB['ER']}.repeat_tokens)"]
+        ok = len(d) == 1
+        X = d[0].name if ok else "?"
         res.ob("R-SAG-COMPAT", ft, "target-is-repeat-unit", "a transition edge enters a repeat unit of a stochastic right element (or a plain token)", ae[0], ok)
+        ok = e2["OK"] in rp and X in rp
+        res.ob("R-SAG-COMPAT", ft, "terminal-tests-dominate", "the edge is added only when the terminal tests succeeded and the target is not an end group", ae[0], ok, f"{sorted(rp)}")
 
 
 def check(eng, res):
